@@ -11,7 +11,7 @@ package c20
 //	sca <op> <pat> A B C   raw scMulAdd/scAdd/scSub/scMul through the hooks; pat = f | s1 | s2 | s3 (output array is
 //	                       the 1st/2nd/3rd input array) | in (all inputs the same array, fresh output) | all
 //	pta <op> <pat> P Q S   points (32-byte encodings) P, Q and scalar S; op = add sub | neg | mul | mulbase; pat as for ali
-//	apx setint64 <n> | zero | one | pick K | clone A | equal A B | string A
+//	apx setint64 <n> | zero | one | pick K | clone A | equal A B | string A | marshalto A | unmarshalfrom X | ptmarshalto P | ptunmarshalfrom X
 //
 // Oracles: math/big for scalars, an affine Edwards25519 implementation on math/big for points.
 
@@ -354,6 +354,67 @@ func execAlias(w []string, res *h.Result) bool {
 			if !a.Equal(a) {
 				res.Oracle = "scalar-equal: not reflexive"
 			}
+		case "marshalto":
+			// Scalar.MarshalTo (marshalling.ScalarMarshalTo): what Sign writes for S
+			A := h.UnHex(w[2])
+			var buf bytes.Buffer
+			n, err := mustScalar(A).MarshalTo(&buf)
+			res.Impl = fmt.Sprintf("%s n=%d err=%v", h.Hex(buf.Bytes()), n, err != nil)
+			if err != nil || n != 32 || !bytes.Equal(buf.Bytes(), le32(new(big.Int).Mod(le(A), ell))) {
+				res.Oracle = "scalar-marshalto-differs: " + res.Impl
+			}
+		case "unmarshalfrom":
+			// Scalar.UnmarshalFrom on a plain reader: exactly 32 bytes are consumed, stored raw
+			X := h.UnHex(w[2])
+			rd := bytes.NewReader(X)
+			sc := suite.Scalar()
+			n, err := sc.UnmarshalFrom(rd)
+			if err != nil {
+				res.Impl = fmt.Sprintf("err n=%d", n)
+				if len(X) >= 32 {
+					res.Oracle = "scalar-unmarshalfrom: 32 bytes available but refused"
+				}
+				break
+			}
+			res.Impl = fmt.Sprintf("ok n=%d %s left=%d", n, h.Hex(rawOf(sc)), rd.Len())
+			if len(X) < 32 || n != 32 || rd.Len() != len(X)-32 || !bytes.Equal(rawOf(sc), le32(new(big.Int).Mod(le(X[:32]), ell))) {
+				res.Oracle = "scalar-unmarshalfrom-differs: " + res.Impl
+			}
+		case "ptmarshalto":
+			P := suite.Point()
+			X := h.UnHex(w[2])
+			bx, by, _, ok := bigDecode(X)
+			if err := P.UnmarshalBinary(X); err != nil || !ok {
+				panic("apx ptmarshalto wants the encoding of a curve point")
+			}
+			var buf bytes.Buffer
+			n, err := P.MarshalTo(&buf)
+			res.Impl = fmt.Sprintf("%s n=%d err=%v", h.Hex(buf.Bytes()), n, err != nil)
+			if err != nil || n != 32 || !bytes.Equal(buf.Bytes(), bigEncode(bx, by)) {
+				res.Oracle = "point-marshalto-differs: " + res.Impl
+			}
+		case "ptunmarshalfrom":
+			X := h.UnHex(w[2])
+			rd := bytes.NewReader(X)
+			P := suite.Point()
+			n, err := P.UnmarshalFrom(rd)
+			var bx, by *big.Int
+			ok := false
+			if len(X) >= 32 {
+				bx, by, _, ok = bigDecode(X[:32])
+			}
+			if err != nil {
+				res.Impl = fmt.Sprintf("err n=%d", n)
+				if ok {
+					res.Oracle = "point-unmarshalfrom: a valid encoding was refused"
+				}
+				break
+			}
+			out, _ := P.MarshalBinary()
+			res.Impl = fmt.Sprintf("ok n=%d %s left=%d", n, h.Hex(out), rd.Len())
+			if !ok || n != 32 || rd.Len() != len(X)-32 || !bytes.Equal(out, bigEncode(bx, by)) {
+				res.Oracle = "point-unmarshalfrom-differs: " + res.Impl
+			}
 		case "string":
 			a := mustScalar(h.UnHex(w[2]))
 			res.Impl = a.String()
@@ -438,6 +499,22 @@ func genAlias(rng *h.Rng, thorough bool, emit func(string)) {
 	}
 	emit("apx zero")
 	emit("apx one")
+	// MarshalTo / UnmarshalFrom (group/internal/marshalling): scalars and points, short / exact / longer inputs
+	for i := 0; i < 4; i++ {
+		v := vals[(i*5+3)%len(vals)]
+		emit("apx marshalto " + hx32(v))
+		emit("apx unmarshalfrom " + hx32(v))
+		emit("apx unmarshalfrom " + hx32(v) + h.Hex(rng.Bytes(1+rng.Intn(40))))
+		pk := h.Hex(ed25519Pub(rng.Bytes(32)))
+		emit("apx ptmarshalto " + pk)
+		emit("apx ptunmarshalfrom " + pk)
+		emit("apx ptunmarshalfrom " + pk + h.Hex(rng.Bytes(1+rng.Intn(40))))
+		emit("apx ptunmarshalfrom " + h.Hex(rng.Bytes(32)))
+	}
+	emit("apx unmarshalfrom -")
+	emit("apx unmarshalfrom " + h.Hex(rng.Bytes(31)))
+	emit("apx ptunmarshalfrom " + h.Hex(rng.Bytes(7)))
+	emit("apx ptmarshalto ecffffffffffffffffffffffffffffffffffffffffffffffffffffffffffff7f")
 	for i := 0; i < 6; i++ {
 		emit("apx pick " + nonce(rng))
 	}
